@@ -77,7 +77,7 @@ for _i, _t, _n in [
 NA = {
  "C06": "Attempted and measured, not reachable: the harnesses that run proof::verify_update (per-path update verifier) over honest witness paths under the symbolic hash run out of 12-16 GB or 25 min in CBMC's symbolic execution even for a single insert into the empty trie (bitvec iterator chains with data-dependent trip counts make the hash-oracle call count symbolic). The read half of the property (witnessed paths verify and confirm exactly the pre-state) is the C05 obligation; the harnesses (kani/core-harness/src/c06.rs) are kept but not claimed.",
  "C07": "Attempted and measured, not reachable: every harness that runs MultiProof::from_path_proofs + verify_multi_proof under the symbolic hash exceeds 30 GB / 40 min in CBMC's symbolic execution even when a single path proof of the empty trie is aggregated (Vec-heavy bisection code with symbolic lengths); the multi-proof verifier alone needs ~20 min / 24 GB per 2-path run. The harnesses (kani/core-harness/src/c07.rs) are kept but not claimed.",
- "C09": "Rollback composes reverse deltas across commits through the segmented log, DashMap, thread pools and files; not encodable by Kani/CBMC or as an SMT kernel.",
+ "C09": "Rollback composes reverse deltas across commits through the segmented log, DashMap, thread pools and files; the for-all-histories statement is not encodable by Kani/CBMC or as an SMT kernel. (One clause - a request that cannot be served changes nothing - is decided for Rollback::truncate under C12, obligation rollback_reject_first; the rollback log's write/fsync/prune order is decided under C04/C17.)",
  "C10": "Close/reopen is file I/O end to end (Store::open, reconstruction, free-list read, WAL replay); nothing a solver can execute symbolically decides it.",
  "C11": "Overlay chains are imbl maps, HashMaps with random state, Arc/Weak graphs and atomics plus the whole merkle stack; out of reach of the available engines.",
  "C15": "Thread interleavings of parking_lot locks/condvars; Kani does not model concurrency and no SMT encoding of the locks is within reach.",
